@@ -305,7 +305,7 @@ pub fn arity() -> Vec<ArityCase> {
 /// of that type (the checker must reject the name, not trip over it).
 pub fn tparam_escape() -> Vec<Ill> {
   let generic = "class Box<T>(val content: T) {\n  method get(): T = this.content\n  function <R> conv(r: R): R = r\n}\n";
-  let users: [(&str, &str, &str); 8] = [
+  let users: [(&str, &str, &str); 10] = [
     ("return type of an interface method", "interface Producer {\n  method produce(): T\n}\n", "function run(p: Producer): unit = {\n    let produced = p.produce();\n    let _ = produced.describe();\n  }"),
     ("parameter type of an interface method", "interface Consumer {\n  method consume(t: T): int\n}\n", "function run(c: Consumer, b: Box<int>): int = c.consume(b.get())"),
     ("interface with another type parameter of its own", "interface Conv<U> {\n  method conv(u: U): T\n}\n", "function run(c: Conv<int>): unit = {\n    let _ = c.conv(1).size();\n  }"),
@@ -313,6 +313,8 @@ pub fn tparam_escape() -> Vec<Ill> {
     ("parameter type of a function of another class", "class Util {\n  function first(x: T): T = x\n}\n", "function run(): unit = {\n    let _ = Util.first(1).foo();\n  }"),
     ("bound of a type parameter of another class", "class Bounded<U: T>(val u: U) {}\n", "function run(): int = 1"),
     ("member-level type parameter used by a sibling member", "class Sib {\n  function <M> id(x: M): M = x\n  function other(y: M): int = y.bar()\n}\n", "function run(): int = 1"),
+    ("class type parameter used by a function (not a method) of a class declared like the generic one", "class Shelf<T>(val item: T) {\n  function describe(x: T): int = x.size()\n}\n", "function run(): int = 1"),
+    ("class type parameter used as a bounded type argument in a function of the class", "interface Showable { method show(): Str }\nclass Wrap<A: Showable>(val a: A) {}\nclass Maker<U>(val u: U) {\n  function wrap(u: U): Wrap<U> = Wrap.init(u)\n}\n", "function run(): int = 1"),
     ("method-level type parameter of the generic class used by a later class", "class Later {\n  function keep(r: R): R = r\n}\n", "function run(): unit = {\n    let _ = Later.keep(1).baz();\n  }"),
   ];
   let mut out = vec![];
